@@ -31,7 +31,7 @@ ASSUMPTIONS = [
 REQUIRED_COUNTERS = ["mean_comparisons", "diffusion_comparisons", "variance_bound_checks", "representations_set",
                      "nd_margin_mean_comparisons", "nd_diffusion_comparisons", "nd_central_cell_second_moments",
                      "nd_central_cell_second_moments_decisive", "nd_central_cell_cross_moments", "pure_jump_models_with_added_brownian_component", "model_object_used_by_an_earlier_chain",
-                     "simulated_diffusion_coefficients"]
+                     "simulated_diffusion_coefficients", "multilevel_path_manager_drifts"]
 MIN_NONTRIVIAL = {"quick": 60, "thorough": 400}
 SHARD_TIMEOUT = {"quick": 900, "thorough": 7200}
 REPS = ["native", "ZERO", "CENTER", "ONEONE", "TILDE"]
@@ -313,6 +313,51 @@ def _run_1d(case, R):
                 R.violation(f"1d-simulated-diffusion-coefficient-{'fv' if fv else 'iv'}-{mode}", f"{label}/{ctor} level {lev}, {mode} mode: the diffusion increments of "
                             f"the simulated path are sqrt(dt) w times {float(np.median(np.abs(c_used)))!r}; sigma = {sigma!r}, sigma^2 + second moment of the central "
                             f"cell = {want2!r} (square root {want2 ** 0.5!r})", wit)
+    # ... and the deterministic paths the multilevel path managers are given: at level l the fine component follows the drift of a chain
+    #     built apart on the grid refined l times, the coarse component the one of level l - 1 (both start at the same point)
+    if lev == 0 and ctor in ("fixed", "geometric_bounds") and len(axis) <= 200:
+        from rpylib.montecarlo.path import MLMCPath
+        from rpylib.process.coupling.couplingmarkovchain import CouplingMarkovChain
+        from rpylib.process.markovchain.markovchain import MarkovChainProcess
+
+        try:
+            def apart(level):
+                mo = W.build_model(mspec)
+                if case.get("extra_sigma"):
+                    mo.levy_triplet.sigma = float(case["extra_sigma"])
+                _set_rep(mo, rep_req, None)
+                gr = G.build_grid(dict(case["grid"]), mo)
+                for _ in range(level):
+                    gr.refine()
+                pr = MarkovChainProcess(model=mo, method=C.sampling_method(method), grid=gr)
+                pr.initialisation(_product())
+                return pr.deterministic_path
+
+            mc = W.build_model(mspec)
+            if case.get("extra_sigma"):
+                mc.levy_triplet.sigma = float(case["extra_sigma"])
+            _set_rep(mc, rep_req, None)
+            cp = CouplingMarkovChain(model=mc, method=C.sampling_method(method), grid=G.build_grid(dict(case["grid"]), mc))
+            cp.initialisation(_product())
+            cp.pre_computation(2, _product())
+            pms = [MLMCPath(deterministic_path=cp.fine_process.deterministic_path, activate_spot_underlying=False)]
+            tt = np.array([0.0, 0.4, 1.0])
+            prev = apart(0)
+            for level in (1, 2):
+                cp.next_level(2, pms, _product())
+                now = apart(level)
+                got_pm = np.asarray(pms[-1].deterministic_path(tt), dtype=float).reshape(2, -1)
+                want_pm = np.stack([np.asarray(now(tt), dtype=float).reshape(-1), np.asarray(prev(tt), dtype=float).reshape(-1)])
+                R.hit("multilevel_path_manager_drifts")
+                if not np.allclose(got_pm, want_pm, rtol=1e-10, atol=1e-12):
+                    which = "fine" if not np.allclose(got_pm[0], want_pm[0], rtol=1e-10, atol=1e-12) else "coarse"
+                    R.violation(f"1d-path-manager-{which}-deterministic-path-level-{'1' if level == 1 else '2+'}", f"{label}/{ctor} declared in {rep}: the path manager of level "
+                                f"{level} moves (fine, coarse) along {got_pm.tolist()} at t = {tt.tolist()}; chains built apart at levels {level} and {level - 1}: "
+                                f"{want_pm.tolist()}", wit)
+                    break
+                prev = now
+        except Exception as exc:  # noqa: BLE001
+            R.violation("1d-coupling-path-manager-raises", f"{label}/{ctor}: {type(exc).__name__}: {exc}", wit)
     # variance gap bounded by the per-cell oscillation of x^2
     if 2 - alpha >= 0.25:
         lo_b, hi_b, _ = C.cell_boundaries_1d(grid)
